@@ -27,6 +27,7 @@ func c13(c *Ctx) {
 	nilCommitRule(c, "R4")
 	c13R5(c)
 	verifyCommitRule(c, "R6")
+	requesterGuardRule(c, "R7")
 }
 
 func c13R1(c *Ctx) {
@@ -174,4 +175,14 @@ func c13R5(c *Ctx) {
 			c.R.Ob(rule, "bpRequester.block-writer:"+n, ok, c.Pos(st), fname(g), "a requester's block may be set only by setBlock")
 		}
 	}
+}
+
+// requesterGuardRule (C13-R7, C08-R9): the fast-sync requester's block and peer id are written by its
+// own goroutine (reset after the peer is removed) and by Receive (setBlock) and read by poolRoutine.
+func requesterGuardRule(c *Ctx, id string) {
+	rule := c.R.Rule(id, "guarded-by: bpRequester.{block,peerID} are accessed only with bpRequester.mtx held — they are reset asynchronously when the serving peer is removed, so an unlocked read in poolRoutine's path (RedoRequest) races with that reset and feeds a sanity panic on a goroutine without recover", 5)
+	guardedByRule(c, rule, []GuardSpec{
+		{Type: "gemmill/blockchain.bpRequester", Mutex: "gemmill/blockchain.bpRequester.mtx", Fields: []string{"block", "peerID"},
+			Exempt: map[string]string{"gemmill/blockchain.newBPRequester": "constructor: the requester is not shared yet"}},
+	})
 }
